@@ -22,6 +22,7 @@ import (
 	"fmt"
 	"os"
 	"os/signal"
+	"path/filepath"
 	"sort"
 	"strconv"
 	"strings"
@@ -52,11 +53,12 @@ type node struct {
 
 type scenario struct {
 	Tree    node   `json:"tree"`
-	Start   string `json:"start"`          // execute | start | supervisor
-	Stop    string `json:"stop"`           // ctx | deadline | cancel | stop | restart
-	DelayMs int    `json:"delay_ms"`       // stop instant, ms after the subprocess reported running; -1: once the whole tree is spawned (+20ms)
-	As      string `json:"as,omitempty"`   // how the library builds the command: "" (Me), sudo, gosu, su, gosu+sudo (stand-ins first on PATH)
-	Wrap    string `json:"wrap,omitempty"` // style of the stand-in wrapper: exec (exec "$@") | fork ("$@" & wait)
+	Start   string `json:"start"`           // execute | start | supervisor
+	Stop    string `json:"stop"`            // ctx | deadline | cancel | stop | restart
+	DelayMs int    `json:"delay_ms"`        // stop instant, ms after the subprocess reported running; -1: once the whole tree is spawned (+20ms)
+	As      string `json:"as,omitempty"`    // how the library builds the command: "" (Me), sudo, gosu, su, gosu+sudo (stand-ins first on PATH)
+	Wrap    string `json:"wrap,omitempty"`  // style of the stand-in wrapper: exec (exec "$@") | fork ("$@" & wait)
+	World   string `json:"world,omitempty"` // what happens to the world between the start and the stop request: "" | delete | rename (the started program file) | chdir (started by a relative path) | path (started by a bare name found on PATH, entry removed)
 }
 
 type result struct {
@@ -162,6 +164,40 @@ func installWrappers(dir string) error {
 		}
 	}
 	return os.Setenv("PATH", dir+":"+os.Getenv("PATH"))
+}
+
+// inTmp: the only place where this harness ever deletes, renames or creates files is its own temp dir
+func inTmp(path string) bool {
+	return tmpDir != "" && strings.HasPrefix(filepath.Clean(path), filepath.Clean(tmpDir)+string(os.PathSeparator))
+}
+
+func removeInTmp(path string) {
+	if inTmp(path) {
+		_ = os.RemoveAll(path)
+	}
+}
+
+var (
+	pathMu  sync.Mutex // PATH of this process (read-modify-write)
+	chdirMu sync.Mutex // the working directory of this process: one chdir scenario at a time
+)
+
+func addPath(dir string) {
+	pathMu.Lock()
+	defer pathMu.Unlock()
+	_ = os.Setenv("PATH", os.Getenv("PATH")+":"+dir)
+}
+
+func dropPath(dir string) {
+	pathMu.Lock()
+	defer pathMu.Unlock()
+	var keep []string
+	for _, e := range strings.Split(os.Getenv("PATH"), ":") {
+		if e != dir {
+			keep = append(keep, e)
+		}
+	}
+	_ = os.Setenv("PATH", strings.Join(keep, ":"))
 }
 
 // script renders the tree as sh function definitions n0, n1, ... (n0 is the root).
@@ -398,6 +434,60 @@ func execute(sc scenario) (res result) {
 	}
 	as, _ := asWrapper(sc.As)
 	defer killCase(caseTag)
+	cmdName, cmdArgs := "sh", []string{"-c", `eval "$VERIF_C05_SCRIPT"; n0`, "c05-" + runID + "-" + tag}
+	worldEvent := func() {}
+	if sc.World != "" {
+		// the command is a program FILE of this case, in the harness's temp dir; the world event takes it away
+		dir := filepath.Join(tmpDir, "case-"+tag)
+		name := "run.sh"
+		if sc.World == "path" {
+			name = "c05run" + tag
+		}
+		file := filepath.Join(dir, name)
+		if !inTmp(file) || os.Mkdir(dir, 0o755) != nil || os.WriteFile(file, []byte("#!/bin/sh\neval \"$VERIF_C05_SCRIPT\"; n0\n"), 0o755) != nil {
+			res.Inconclusive = "cannot prepare the program file"
+			return
+		}
+		defer removeInTmp(dir)
+		cmdArgs = []string{"c05-" + runID + "-" + tag}
+		switch sc.World {
+		case "delete":
+			cmdName = file
+			worldEvent = func() { removeInTmp(file) }
+		case "rename":
+			cmdName = file
+			worldEvent = func() {
+				if inTmp(file) {
+					_ = os.Rename(file, file+".moved")
+				}
+			}
+		case "path":
+			cmdName = name
+			addPath(dir)
+			defer dropPath(dir)
+			worldEvent = func() { dropPath(dir) }
+		case "chdir":
+			cmdName = "./" + name
+			chdirMu.Lock()
+			orig, werr := os.Getwd()
+			released := false
+			release := func() {
+				if !released {
+					released = true
+					if werr == nil {
+						_ = os.Chdir(orig)
+					}
+					chdirMu.Unlock()
+				}
+			}
+			defer release()
+			if werr != nil || os.Chdir(dir) != nil {
+				res.Inconclusive = "cannot change the working directory"
+				return
+			}
+			worldEvent = release
+		}
+	}
 
 	parent, cancelParent := context.WithCancel(context.Background())
 	defer cancelParent()
@@ -416,7 +506,7 @@ func execute(sc scenario) (res result) {
 	}
 	newP := func(ctx context.Context) (*subprocess.Subprocess, error) {
 		q := new(subprocess.Subprocess)
-		e := q.SetupAsWithEnvironment(ctx, quietLoggers{}, env, "", "", "", as, "sh", "-c", `eval "$VERIF_C05_SCRIPT"; n0`, "c05-"+runID+"-"+tag)
+		e := q.SetupAsWithEnvironment(ctx, quietLoggers{}, env, "", "", "", as, cmdName, cmdArgs...)
 		return q, e
 	}
 	var p *subprocess.Subprocess
@@ -525,6 +615,8 @@ func execute(sc scenario) (res result) {
 		default:
 		}
 	}
+
+	worldEvent() // the program file disappears / the working directory or PATH changes; the tree keeps running
 
 	// ---- the stop request
 	stopDone := make(chan struct{})
@@ -730,6 +822,152 @@ var plainRuns = []plainRun{
 }
 
 // ---------------------------------------------------------------------------------------------
+// concurrent API calls on ONE object: the object's mutex serialises them, so at most one instance of the command is
+// tracked and alive at any time; after Stop nothing is alive, nothing is left unreaped, IsOn is false.
+
+type concRun struct {
+	Kind string `json:"conc"` // start||start | start||stop | stop||stop | restart||start
+}
+
+type concObs struct {
+	Steps     []string `json:"steps"` // "<step>: <instances alive>"
+	IsOnAfter bool     `json:"is_on_after"`
+}
+
+// gated runs the calls so that they enter together; false if one of them has not returned within the bound
+func gated(calls ...func()) bool {
+	gate := make(chan struct{})
+	var wg sync.WaitGroup
+	for _, c := range calls {
+		wg.Add(1)
+		go func(c func()) { defer wg.Done(); <-gate; c() }(c)
+	}
+	close(gate)
+	done := make(chan struct{})
+	go func() { wg.Wait(); close(done) }()
+	select {
+	case <-done:
+		return true
+	case <-time.After(returnBound):
+		return false
+	}
+}
+
+func runConc(cr concRun) (sig, what string, obs concObs) {
+	seqMu.Lock()
+	caseSeq++
+	tag := fmt.Sprintf("%d", caseSeq)
+	seqMu.Unlock()
+	defer killCase(tag)
+	env := []string{
+		"VERIF_C05_RUN=" + runID,
+		"VERIF_C05_CASE=" + runID + "-" + tag,
+		"VERIF_C05_SCRIPT=" + script(fan(leaf(), leaf())),
+		"VERIF_C05_WRAP=",
+	}
+	ctx, cancel := context.WithCancel(context.Background())
+	defer cancel()
+	p := new(subprocess.Subprocess)
+	if err := p.SetupAsWithEnvironment(ctx, quietLoggers{}, env, "", "", "", commandUtils.Me(), "sh", "-c", `eval "$VERIF_C05_SCRIPT"; n0`, "c05-"+runID+"-"+tag); err != nil {
+		return "", "", obs
+	}
+	defer p.Cancel()
+	seen := map[int]bool{} // every instance (direct child leading its group) ever observed
+	instances := func() int {
+		n := 0
+		for _, q := range procsOf(tag, time.Now()) {
+			if q.PPid == os.Getpid() && q.Pid == q.Pgrp {
+				n++
+				seen[q.Pid] = true
+			}
+		}
+		return n
+	}
+	// settled: the instance count once every started tree has finished spawning (3 processes per instance)
+	settled := func() int {
+		n := 0
+		for i := 0; i < 100; i++ {
+			n = instances()
+			if len(procsOf(tag, time.Now())) >= 3*n {
+				break
+			}
+			time.Sleep(10 * time.Millisecond)
+		}
+		time.Sleep(30 * time.Millisecond)
+		return instances()
+	}
+	fail := func(k, w string) {
+		if sig == "" {
+			sig, what = k+":"+cr.Kind, w
+		}
+	}
+	step := func(name string, max int) {
+		n := settled()
+		obs.Steps = append(obs.Steps, fmt.Sprintf("%s: %d", name, n))
+		if n > max {
+			fail("multiple-instances", fmt.Sprintf("after %s, %d instances of the command are alive at once on one Subprocess object (at most %d can be tracked): the others can never be stopped through the object", name, n, max))
+		}
+	}
+	start := func() { _ = p.Start() }
+	stop := func() { _ = p.Stop() }
+	restart := func() { _ = p.Restart() }
+	ok := true
+	switch cr.Kind {
+	case "start||start":
+		ok = gated(start, start)
+		step("Start||Start", 1)
+		ok = ok && gated(restart)
+		step("Restart", 1)
+	case "start||stop":
+		ok = gated(start)
+		step("Start", 1)
+		ok = ok && gated(start, stop)
+		step("Start||Stop", 1)
+	case "stop||stop":
+		ok = gated(start)
+		step("Start", 1)
+		ok = ok && gated(stop, stop)
+		step("Stop||Stop", 0)
+	case "restart||start":
+		ok = gated(start)
+		step("Start", 1)
+		ok = ok && gated(restart, start)
+		step("Restart||Start", 1)
+	}
+	ok = ok && gated(stop)
+	if !ok {
+		fail("no-return:conc", "a call did not return within the bound")
+	}
+	// after Stop: nothing of any instance alive, nothing unreaped, IsOn false
+	alive := 0
+	for t0 := time.Now(); ; {
+		alive = len(procsOf(tag, time.Now()))
+		instances()
+		if alive == 0 || time.Since(t0) > settleBound {
+			break
+		}
+		time.Sleep(10 * time.Millisecond)
+	}
+	obs.Steps = append(obs.Steps, fmt.Sprintf("Stop: %d processes alive", alive))
+	obs.IsOnAfter = p.IsOn()
+	if alive > 0 {
+		fail("instance-survives-stop", fmt.Sprintf("%d processes of the command are alive %v after Stop() returned", alive, settleBound))
+	}
+	if obs.IsOnAfter {
+		fail("ison-true:conc", "IsOn() is true after Stop() returned")
+	}
+	time.Sleep(50 * time.Millisecond)
+	for pid := range seen {
+		if pp, _, _, st, okk := readStat(pid); okk && st == 'Z' && pp == os.Getpid() {
+			fail("unreaped-instance", fmt.Sprintf("instance %d of the command has been killed but never waited for: it was not tracked by the object any more", pid))
+		}
+	}
+	return
+}
+
+var concKinds = []string{"start||start", "start||stop", "stop||stop", "restart||start"}
+
+// ---------------------------------------------------------------------------------------------
 // oracle (independent of the Coq model)
 
 func shapeClass(t node) string {
@@ -899,6 +1137,9 @@ func outsideHolder(n node) bool {
 
 // admissible: combinations in which the subprocess is running (in the sense of the API) when the stop comes.
 func admissible(sc scenario) bool {
+	if sc.World != "" && sc.As != "" {
+		return false
+	}
 	exits := exits(eff(sc))
 	if exits && sc.Start == "supervisor" {
 		return false // the supervisor would legitimately restart the command again and again
@@ -952,6 +1193,24 @@ func main() {
 		r.Finish()
 	}
 
+	var cr concRun
+	if _, ok := r.ReplayObject(&cr); ok && cr.Kind != "" {
+		counts, whats := map[string]int{}, map[string]string{}
+		for a := 0; a < 5; a++ {
+			r.Eval()
+			if sig, wh, _ := runConc(cr); sig != "" {
+				counts[sig]++
+				whats[sig] = wh
+			}
+		}
+		for sg, c := range counts {
+			if c >= 3 {
+				r.Fail(sg, whats[sg], cr)
+			}
+		}
+		finish()
+		return
+	}
 	var pl struct {
 		Plain *plainRun `json:"plain"`
 	}
@@ -1065,6 +1324,14 @@ func main() {
 			}
 		}
 	}
+	// the world changes between the start and the stop request: every event x every start x stop, on the D17 shape
+	for _, w := range []string{"delete", "rename", "chdir", "path"} {
+		for _, st := range starts {
+			for _, sp := range stops {
+				add(scenario{Tree: d17, Start: st, Stop: sp, DelayMs: -1, World: w})
+			}
+		}
+	}
 	nCorpus := len(scs)
 	// stop instants swept relative to the spawn, on the D17 shape and the TERM-ignoring one
 	for _, t := range []node{d17, ign, exitP} {
@@ -1081,7 +1348,12 @@ func main() {
 	delays := []int{-1, -1, -1, 0, 1, 3, 10, 30}
 	for i := 0; i < n*3 && len(scs) < nCorpus+150+n; i++ {
 		sc := scenario{Tree: genTree(r, 3), Start: starts[r.Rng.Intn(3)], Stop: stops[r.Rng.Intn(5)], DelayMs: delays[r.Rng.Intn(len(delays))]}
-		if r.Rng.Intn(3) == 0 {
+		if r.Rng.Intn(5) == 0 {
+			sc.World = []string{"delete", "rename", "chdir", "path"}[r.Rng.Intn(4)]
+			if sc.DelayMs >= 0 && sc.DelayMs < 10 {
+				sc.DelayMs = 10 // the event needs the program to have been started
+			}
+		} else if r.Rng.Intn(3) == 0 {
 			sc.As = []string{"sudo", "gosu", "su", "gosu+sudo"}[r.Rng.Intn(4)]
 			sc.Wrap = []string{"exec", "fork"}[r.Rng.Intn(2)]
 		}
@@ -1093,7 +1365,60 @@ func main() {
 		}
 	}
 
+	// concurrent calls on one object: several attempts per kind (the interleaving is the scheduler's). A signature is a
+	// failure when the MAJORITY of the attempts shows it; isolated occurrences are recorded as a note (the unchanged library
+	// has a narrow window of its own: monitoringOn is set by the monitor goroutine, so IsOn() can still be false just after
+	// Start() returned, and about 1 gated Start||Start in 100 spawns twice).
+	type concOut struct {
+		sig, wh string
+		obs     concObs
+		n, bad  int
+	}
+	concAttempts := func(kind string, n int) concOut {
+		counts := map[string]int{}
+		whats := map[string]string{}
+		var last concObs
+		for a := 0; a < n; a++ {
+			sig, wh, ob := runConc(concRun{Kind: kind})
+			last = ob
+			if sig != "" {
+				counts[sig]++
+				whats[sig] = wh
+				last = ob
+			}
+		}
+		out := concOut{obs: last, n: n}
+		for sg, c := range counts {
+			out.bad += c
+			if 2*c > n {
+				out.sig, out.wh = sg, fmt.Sprintf("%s (in %d of %d attempts)", whats[sg], c, n)
+			}
+		}
+		return out
+	}
+	cOut := make([]concOut, len(concKinds))
+	var cwg sync.WaitGroup
+	for i := range concKinds {
+		cwg.Add(1)
+		go func(i int) { defer cwg.Done(); cOut[i] = concAttempts(concKinds[i], r.N(5, 15)) }(i)
+	}
 	outs := runAll(scs, 8)
+	cwg.Wait()
+	for i, o := range cOut {
+		r.Evals(o.n)
+		r.CountN("concurrent="+concKinds[i], o.n)
+		r.Distinct("conc:" + concKinds[i])
+		r.Sample(map[string]any{"concurrent_calls": concKinds[i], "observed": o.obs})
+		if o.sig != "" {
+			r.Fail(o.sig, o.wh, concRun{Kind: concKinds[i]})
+		} else if o.bad > 0 {
+			r.Count("concurrent-isolated-anomaly")
+			r.Note(fmt.Sprintf("%s: %d of %d attempts showed an anomaly (not a majority: not reported)", concKinds[i], o.bad, o.n))
+		}
+		if probe {
+			fmt.Fprintf(os.Stderr, "PROBE conc %s -> %+v [%s]\n", concKinds[i], o.obs, o.sig)
+		}
+	}
 	pwg.Wait()
 	for i, o := range pOut {
 		r.Evals(o.attempts)
@@ -1130,6 +1455,9 @@ func main() {
 		r.Count("start=" + o.sc.Start)
 		r.Count("stop=" + o.sc.Stop)
 		r.Count("command=" + map[bool]string{true: "plain", false: o.sc.As + "/" + o.sc.Wrap}[o.sc.As == ""])
+		if o.sc.World != "" {
+			r.Count("world=" + o.sc.World)
+		}
 		all, _, _ := countNodes(o.sc.Tree)
 		r.Count(fmt.Sprintf("tree-size=%d", min(all, 12)/3*3))
 		r.Count(fmt.Sprintf("delay=%d", o.sc.DelayMs))
